@@ -155,7 +155,11 @@ def item_ids(mod, items):
         return ids
     last = None
     for k, it in enumerate(reqs):
-        last = it.send_result(k)
+        try:
+            last = it.send_result(k)
+        except Exception:
+            # the reply to a request the connection just accepted cannot be built
+            return None
     try:
         resp = json.loads(last.decode())
     except Exception:
